@@ -1,7 +1,7 @@
 (* Correspondence for C20: SecretConnection (byte stream over a tampering wire), Channel
    packetisation / reassembly, and the admission decision. *)
 From Coq Require Import List NArith ZArith Bool.
-From AnnVerif Require Import Base.Res Base.Bytes Base.Sx Model.SecretConn Model.MConn Model.Admission Corr.Oracle.
+From AnnVerif Require Import Base.Res Base.Bytes Base.Sx Model.SecretConn Model.MConn Model.Admission Model.AdmitHist Corr.Oracle.
 Import ListNotations.
 
 (* ---- secret connection ---- *)
@@ -98,6 +98,37 @@ Definition check_admit (s : sx) : sx :=
       let m := match admission (mkAdm r' ca' v' nv' sg' hc' km' sf') with PeerAdmitted => true | _ => false end in
       sx_of_codes (falses [Bool.eqb m out'])
     | _, _, _, _, _, _, _, _, _ => sx_fail
+    end
+  | _ => sx_fail
+  end.
+
+(* ---- admission over a history: one node, validator-set changes and handshakes in order ----
+   case = ((auth_by_ca nonval_auth self (refused ...)) (event ...) (admitted ...))
+   event = (0 ((key is_ca) ...)) | (1 auth announced cert),  cert = (0 signer) | (1) | (2) *)
+Definition dCert (s : sx) : option cert :=
+  match s with
+  | SL [SZ 0%Z; SB k] => Some (CertBy k)
+  | SL [SZ 1%Z] => Some CertInvalid
+  | SL [SZ 2%Z] => Some CertMalformed
+  | _ => None
+  end.
+Definition dCval (s : sx) : option cval :=
+  match s with SL [SB k; c] => c' <-? dBool c ;; Some (mkCV k c') | _ => None end.
+Definition dAev (s : sx) : option aev :=
+  match s with
+  | SL [SZ 0%Z; vs] => vs' <-? dL dCval vs ;; Some (ASetVals vs')
+  | SL [SZ 1%Z; SB a; SB n; c] => c' <-? dCert c ;; Some (AHandshake (mkHs a n c'))
+  | _ => None
+  end.
+Definition check_admithist (s : sx) : sx :=
+  match s with
+  | SL [SL [ca; nv; SB self; rf]; evs; outs] =>
+    match dBool ca, dBool nv, dL dB rf, dL dAev evs, dL dBool outs with
+    | Some ca', Some nv', Some rf', Some evs', Some outs' =>
+      let m := map (fun x => match snd x with PeerAdmitted => true | _ => false end) (arun (mkACfg ca' nv' self rf') [] evs') in
+      if Nat.eqb (length m) (length outs') then sx_of_codes (falses (map (fun p => Bool.eqb (fst p) (snd p)) (combine m outs')))
+      else sx_fail
+    | _, _, _, _, _ => sx_fail
     end
   | _ => sx_fail
   end.
